@@ -1,5 +1,5 @@
 \* Deep histories for seeded sampling (C19 thorough): 2 resolver fields, 2 edit records, helper {hc}, import {asfx},
-\* both resolver layouts, histories <= 5. Measured: 6 388 states, 21 936 edges (2 068 Generate edges), 8 s.
+\* both resolver layouts, histories <= 5. Measured: 6 388 states, 20 943 edges, 8 s.
 INIT Init
 NEXT Next
 CONSTANTS
